@@ -68,6 +68,7 @@ type Req struct {
 	Header  [][2]string    `json:"header"`
 	BodyLen int            `json:"body_len"`
 	CType   string         `json:"ctype"`
+	Chunked bool           `json:"chunked,omitempty"` // the request body uses chunked framing (no Content-Length)
 	Script  fcgiref.Script `json:"script"`
 	Status  int            `json:"status"`  // status the responder announces (0 = no Status header)
 	RHeader [][2]string    `json:"rheader"` // responder headers
@@ -161,7 +162,20 @@ func runCase(c *Case) (nontrivial int, err error) {
 				hdr = append(hdr, [2]string{"Content-Type", r.CType})
 			}
 		}
-		resp, e := srv.Once(addr, r.Method, srv.Request(r.Method, r.Target, "localhost", hdr, body))
+		raw := srv.Request(r.Method, r.Target, "localhost", hdr, body)
+		if r.Chunked && body != nil {
+			var cb bytes.Buffer
+			cb.Write(srv.Request(r.Method, r.Target, "localhost", append(hdr, [2]string{"Transfer-Encoding", "chunked"}), nil))
+			for off := 0; off < len(body); off += 5000 {
+				end := min(off+5000, len(body))
+				fmt.Fprintf(&cb, "%x\r\n", end-off)
+				cb.Write(body[off:end])
+				cb.WriteString("\r\n")
+			}
+			cb.WriteString("0\r\n\r\n")
+			raw = cb.Bytes()
+		}
+		resp, e := srv.Once(addr, r.Method, raw)
 		seen := responder.Take(id)
 		desc := fmt.Sprintf("request %d %s %s (body %d, %d headers) rule %+v script{head %q body %d cuts %v pad %v stderr %v@%v}", i, r.Method, r.Target, r.BodyLen, len(r.Header), c.Rule, clipS(sc.Head), sc.BodyLen, sc.Cuts, sc.Padding, sc.Stderr, sc.StderrAt)
 		u, perr := url.ParseRequestURI(r.Target)
@@ -241,6 +255,12 @@ func runCase(c *Case) (nontrivial int, err error) {
 		want["HTTP_HOST"] = "localhost"
 		if body != nil {
 			want["CONTENT_LENGTH"] = fmt.Sprint(len(body))
+			if r.Chunked {
+				// the statement quantifies over body sizes, not framings: with chunked
+				// framing the length is not known up front and casket announces 0;
+				// no verdict on this one variable, the stdin bytes are still compared
+				delete(want, "CONTENT_LENGTH")
+			}
 			if r.CType != "" && r.Method != "GET" && r.Method != "HEAD" {
 				want["CONTENT_TYPE"] = r.CType
 			}
@@ -428,6 +448,7 @@ func genReq(t *rapid.T, lb string) Req {
 	if r.Method == "POST" || r.Method == "PUT" {
 		r.BodyLen = rapid.SampledFrom([]int{0, 1, 100, 65499, 65500, 65501, 130999, 131000, 131001, 200000}).Draw(t, lb+"bl")
 		r.CType = rapid.SampledFrom([]string{"", "application/x-www-form-urlencoded", "application/json"}).Draw(t, lb+"ct")
+		r.Chunked = rapid.IntRange(0, 4).Draw(t, lb+"chk") == 0
 	}
 	// responder script
 	r.Status = rapid.SampledFrom([]int{0, 0, 200, 201, 404, 500, 302}).Draw(t, lb+"st")
